@@ -82,10 +82,13 @@ CLAIMS['C09'] = dict(
          'proved functionally: forced resets never yield submitted/running, requested values are taken, '
          'unrequested kept, the result says whether anything changed, expired clears the queued and '
          'runahead flags. All states, no bound.',
-    note=_PROOF_NOTE + 'NOT covered (needs message histories, see DESIGN 5 C09): that status only moves along '
-         'the lifecycle (the transitions in process_message / prep_submit_task_jobs carry no local guard), and '
-         'the implied-outputs clause (succeeded/failed imply submitted and started) which lives in '
-         'process_message; those functions are not under contract.')
+    note=_PROOF_NOTE + 'Also verified here (contracts/c10_messages.py): process_message and its handlers - '
+         'outputs monotone on every path, back to waiting only through the retry branch, expired clears the queue '
+         'flags, a received message never moves the status backwards, get_incomplete_implied returns exactly the '
+         'incomplete earlier outputs and is asked about the output the message completes. NOT covered (needs '
+         'message histories, see DESIGN 5 C09): that status only moves along the lifecycle for internal and '
+         'polled messages (always believed by design) and in prep_submit_task_jobs; that the implied outputs end '
+         'up complete after the recursive calls is not a stated postcondition.')
 
 CLAIMS['C11'] = dict(
     category='proof',
@@ -122,11 +125,16 @@ CLAIMS['C02'] = dict(
          'are proved against their bodies: the result is "no retry left" (forced, no timer, or timer exhausted), '
          'a granted retry consumes exactly one delay and leaves the task waiting with the failed/submit-failed '
          'output untouched, and only the definitive branch sets failed/submit-failed. A census shows the retry '
-         'counter is assigned only by the timer itself and where a job has started or been vacated.',
+         'counter is assigned only by the timer itself and where a job has started or been vacated. '
+         'TaskPool._get_task_history (the finished-in-flow lookup behind "not submitted more than once per flow") '
+         'is proved for every content of the task_states table: largest recorded submit number; no status exactly '
+         'when no recorded instance shares a flow; and whenever a recorded instance sharing a flow is finished, a '
+         'finished status is returned (a flow merge leaves a stale unfinished row beside the finished one).',
     note=_PROOF_NOTE + 'NOT covered: the (N+1)*(M+1) bound is the arithmetic consequence of the per-timer '
-         'facts over a history, not itself an obligation; process_message (that spawn_children(failed) is reached '
-         'only after a True return), spawn_task/_get_task_history (not re-run when finished and complete) are '
-         'not under contract. _retry_task and the event-handler/job-bookkeeping helpers are assumed.')
+         'facts over a history, not itself an obligation. That spawn_children(failed / submit-failed) is reached '
+         'only after the handler reported "no retry left" is a call-site obligation of process_message, '
+         'discharged under C10. spawn_task (what it does with the history) is not under contract. _retry_task, '
+         'the event-handler/job-bookkeeping helpers and the SQL SELECT behind select_prev_instances are assumed.')
 
 CLAIMS['C47'] = dict(
     category='proof',
@@ -179,6 +187,183 @@ CLAIMS['C13'] = dict(
          'keys and is only set after all keys are recorded) is checked on every prerequisite the bounded stand-in '
          'builds but is not proved of Dependency.get_prerequisite. The bounded stand-in found two defects (graph '
          'parser name boundary, message-in-message rewriting), repaired by fix: commits d849c4a and 9ba9084.')
+
+CLAIMS['C10'] = dict(
+    category='proof',
+    text='TaskEventsManager.process_message (the 250-line dispatcher) and _process_message_check are proved '
+         'against their real bodies, with TaskState.is_gt/is_gte, get_incomplete_implied and the handlers '
+         '_process_message_started/_succeeded/_expired/_submitted. First sentence: _process_message_check returns '
+         'False exactly for a received message of another submit number and for a late message while a retry is '
+         'lined up (unless forced / transient); process_message then returns False with the task\'s status, flags '
+         'and outputs unchanged. Second sentence: assertions placed before EVERY call of a state-changing handler '
+         '(call-site obligations, also for calls added later) show that a received message whose status lies '
+         'behind the current one never reaches the handler - the function asks for a poll instead - and a poll '
+         'request is only ever the answer to a received message. Also proved on every path: outputs are monotone, '
+         'a return to waiting happens only through the failed / submit-failed retry branch, children of failed / '
+         'submit-failed are spawned only when the handler reported "no retry left", implied outputs are looked '
+         'up for the output the message completes. Recursion (implied outputs) is verified against the '
+         'function\'s own contract; the loop has an invariant; no bound on anything.',
+    note=_PROOF_NOTE + 'NOT covered: the third sentence (for any interleaving the final status matches the latest '
+         'job\'s outcome) is a whole-history statement; TaskJobManager._poll_task_job_callback and '
+         'Scheduler.process_queued_task_messages are not under contract. Assumed: split_run_signal (starred '
+         'unpacking), spawn_children (callback into the pool: may change other tasks, not this task\'s status '
+         'or outputs), data-store / DB / event-handler collaborators, TaskState.status is one of the eight '
+         'statuses and retry counters are >= 0 (type invariants, checked at every write under contract). The '
+         'str-severity variant of process_message is verified by the thorough command only.')
+
+CLAIMS['C07'] = dict(
+    category='proof',
+    text='The spawn path of the pool is proved against the real bodies: TaskDef.is_valid_point (on one of the '
+         'task\'s sequences), TaskPool.can_be_spawned (True only for a defined task, at a point within '
+         '[initial, final] and on one of its sequences), TaskPool._load_db_task_proxy (a proxy only when '
+         'can_be_spawned), TaskPool.spawn_task (returns a proxy only for an instance inside the graph, with that '
+         'point and definition; returns nothing that has a prerequisite beyond the stop point - the loop over '
+         'the target points is cut by an invariant) and TaskPool.get_or_spawn_task (a new proxy only for an '
+         'instance that is absent from the pool and inside the graph). For every configuration, point, flow set '
+         'and task-history table; 338 paths of spawn_task.',
+    note=_PROOF_NOTE + 'Sequences are abstract (interface contract SequenceBase.is_valid; IntegerSequence is '
+         'proved to denote its recurrence under C16, ISO8601Sequence is not covered). Assumed: the TaskProxy '
+         'constructor stores what it is given; get_taskdef returns the definition of a defined task and an '
+         'implicit definition has no sequences. NOT covered: the callers of add_to_pool (spawn_on_output, '
+         'spawn_next_parentless, load_from_point, _set_prereqs_tdef) are not under contract - that they add only '
+         'what get_or_spawn_task returned is not an obligation; the restart loader re-creates what the database '
+         'recorded; second sentence (nothing beyond the stop point is SUBMITTED) is the runahead cap (C04) plus '
+         'main-loop order.')
+
+CLAIMS['C46'] = dict(
+    category='proof',
+    text='TaskPool.spawn_task is proved (all paths, all histories) to return nothing for an instance before the '
+         'start point when the flow set contains the original flow 1, the instance has no recorded history in '
+         'these flows, and it was not manually triggered (pre_start_tasks_to_trigger). The comparison is on the '
+         'integer value of the points (PointBase ordering, C18). "Dependencies on them count as satisfied": '
+         'Dependency.get_prerequisite is proved against its body - every value it records (assertions before '
+         'every Prerequisite.__setitem__ call) is True exactly when the trigger has an offset and its target '
+         'point lies before the initial point, or before the start point while the dependent instance does '
+         'not; the target is the offset applied to the initial point for [^..] triggers and to the '
+         'dependent\'s own point otherwise.',
+    note=_PROOF_NOTE + 'A bounded native enumeration of get_prerequisite (1890 combinations, listed under '
+         'coverage.bounded_standins_not_proofs, not counted) accompanies the proof only to supply a failing '
+         'input when a changed body makes the solver give up on the text arithmetic of points. The offset '
+         'arithmetic itself (get_point_relative) is an uninterpreted function here. NOT covered: '
+         'spawn_next_parentless (returns early before the start point; not under contract), start tasks '
+         '(Scheduler._load_pool_from_tasks).')
+
+CLAIMS['C06'] = dict(
+    category='proof',
+    text='Per call, for every pool and task state: TaskProxy.is_ready_to_run is False for a held task; the queue '
+         'sink TaskPool.queue_task requires "not held (or manually triggered)" and the obligation is discharged at '
+         'every call site under contract (queue_if_ready, release_held_active_task); LimitedTaskQueue.release '
+         'never hands out a held task (C05 contracts, re-verified here); hold_active_task / '
+         'release_held_active_task set / clear the flag and record / forget the instance in tasks_to_hold '
+         'without forgetting other holds, and re-queue only a task that is ready and not runahead-limited; '
+         'set_hold_point stores the point and holds every pooled task beyond it (loop invariant over the pool '
+         'list); spawn_task holds an instance when it spawns if it was held beforehand or lies beyond the hold '
+         'point ("holding an instance that is not yet in the pool takes effect when it spawns").',
+    note=_PROOF_NOTE + 'NOT covered: a task already released from the queue (waiting_on_job_prep) that is held '
+         'afterwards - the preparing transition in prep_submit_task_jobs has no held check, this is a history '
+         'fact; hold_tasks / release_held_tasks (identifier matching) and release_hold_point are not under '
+         'contract; "survive a restart" is SQL (put_tasks_to_hold / load_db_tasks_to_hold are assumed).')
+
+CLAIMS['C03'] = dict(
+    category='proof',
+    text='The safety half, as a chain of call contracts each proved against its real body for an arbitrary '
+         'pool: TaskPool.log_incomplete_tasks returns True exactly when some pooled task is finished and its '
+         'completion expression is false; TaskPool.is_stalled returns True exactly when no pooled task is '
+         'preparing / submitted / running, no waiting task that is released from the runahead pool has all its '
+         'prerequisites satisfied, and some task is incomplete or partially satisfied within the stop point; '
+         'Scheduler.check_workflow_stalled keeps a reported stall, never reports a new one while paused, '
+         'otherwise reports what the pool says; Scheduler.check_auto_shutdown returns True only if the workflow '
+         'is not paused, not in the restart-timeout wait, not stalled, and the pool holds no active task, no '
+         'released waiting task, no finished-but-incomplete task and no partially satisfied prerequisite '
+         'within the stop point (the first sentence of the property). The pool is unchanged by all of them. '
+         'Quantified contracts over the pool view, loop invariants, generator expressions as exists/forall.',
+    note=_PROOF_NOTE + 'The contract of TaskPool.log_unsatisfied_prereqs (True exactly when some task within the '
+         'stop point waits on something within it) is USED at its call site but verified only by the thorough '
+         'command (nested loops over a dictionary of lists; minutes). NOT covered: the liveness half ("never '
+         'leaves a ready task unsubmitted indefinitely", "reports a stall only when no task can progress" over '
+         'time) - whole-history statements. Prerequisite satisfaction is a ghost function of the task (what '
+         'is_satisfied() returns is C13); xtriggers do not enter is_stalled in the code and are not part of '
+         'the contract.')
+
+CLAIMS['C04'] = dict(
+    category='proof',
+    text='The clause "extended by the largest future-trigger offset among pooled tasks and capped at the stop '
+         'point": (1) the last statements of TaskPool.compute_runahead (from `pre_adj_limit = limit_point` to '
+         '`return True`, taken mechanically from the real FunctionDef) are verified as a FRAGMENT for an '
+         'arbitrary un-adjusted limit: the limit stored is min(limit + max_future_offset if any, stop point if '
+         'any), in particular never beyond the stop point; (2) TaskPool.set_max_future_offset is verified whole '
+         'against its body (loop invariant over the pool list): the offset stored is the largest '
+         'max_future_prereq_offset among the pooled tasks\' definitions, None exactly when no pooled task has '
+         'one, and whenever the stored offset changed the limit is recomputed (ghost counter advanced by '
+         'compute_runahead). Integer cycling; all pools, offsets and points.',
+    note=_PROOF_NOTE + 'What the fragment drops: everything in compute_runahead before the marker - the base '
+         'point, the sequence points and the (n+1)-th earliest point (first half of the first sentence): NOT '
+         'covered; nor are TaskPool.release_runahead_tasks (nested comprehension over the pool) and '
+         'WorkflowConfig.process_runahead_limit. "Never prevents the workflow from finishing" is liveness. '
+         'compute_runahead as seen by set_max_future_offset is an assumed contract (a call is a recomputation).')
+
+_BOUNDED_TECH = ('bounded stand-in for contract-based verification: the contract (pre/postcondition, stated in the '
+                 'module docstring) is checked at run time on the real functions over an exhaustively enumerated '
+                 'small scope; labelled bounded, not a proof (no obligation is discharged by a solver)')
+_BOUNDED_NOTE = ('BOUNDED, not proved: the functions are outside the verifier generator\'s reach (reason in the '
+                 'module docstring of contracts/{mod}.py); the bound is stated in coverage.rule of the evidence '
+                 'file. Trusted: CPython; the independent oracle written in the same module. ')
+
+
+def _bounded(pid, mod, text, extra=''):
+    CLAIMS[pid] = dict(category='exploration', text=text, technique=_BOUNDED_TECH,
+                       note=_BOUNDED_NOTE.format(mod=mod) + extra)
+
+
+_bounded('C23', 'c23_bounded',
+         'For every prefix-closed assignment of user / workflow / cycle / task / job tokens and selectors over a '
+         'small vocabulary (globs, hierarchical workflow names, un-padded job numbers): tokenise(detokenise(T)) '
+         'equals T with the job number zero-padded (equal and hash-equal Tokens), detokenise(tokenise(S)) == S '
+         'for the canonical strings produced, relative and absolute forms agree on cycle / task / job, and legacy '
+         'task.cycle and cycle/task identifiers upgrade to the same tokens.',
+         'Regex-based parsing: no SMT semantics for the ID regexes (look-arounds, named groups).')
+_bounded('C35', 'c35_bounded',
+         'For every runtime hierarchy of <= 5 namespaces (each with every ordered list of distinct earlier '
+         'namespaces as parents) and every namespace in it: C3.mro returns exactly the MRO Python computes for '
+         'the equivalent class hierarchy, and raises exactly when Python refuses the hierarchy.',
+         'WorkflowConfig.compute_inheritance (which feeds C3 from the parsed configuration) is not covered.')
+_bounded('C37', 'c37_bounded',
+         'For every literal text of a small grammar that eval_var accepts (ints, floats incl. overflow / underflow / '
+         '-0.0, quoted strings with quotes, newlines and non-ASCII, bytes, None, bools, complex, and lists / tuples '
+         '/ dicts / sets of them to depth 2): the value stored by the real put_workflow_template_vars and restored by '
+         'the real Scheduler._load_template_vars has the identical type, value and repr, and a key given again on '
+         'the command line keeps the command-line value. One known finding (values containing a float infinity).',
+         'The round trip is repr() + ast.literal_eval(): CPython code, not /repo code.')
+_bounded('C39', 'c39_bounded',
+         'For every string of <= 4 characters over {a 1 . / - _ ~ +} and every "/"-join of <= 4 components from a '
+         'vocabulary of ordinary, ".", "..", empty and reserved components (346 200 name / flag pairs): whenever '
+         'validate_workflow_name returns normally, the name resolves strictly inside the cylc-run directory '
+         '(independent component-walk oracle and os.path.normpath agree) and, with check_reserved_names, has no '
+         'reserved or run<N> component.',
+         'WorkflowNameValidator is a table of regular expressions.')
+_bounded('C40', 'c40_bounded',
+         'For 15 task patterns x 7 cycle patterns x status selector x flow filter against 50 recorded instances '
+         'whose names differ by case, "_" and "%", on a real in-memory SQLite database: workflow_state_query '
+         'returns exactly the recorded instances that match, "*" matching any sequence and every other character '
+         'only itself, case-sensitively. The LIKE defect this check found was repaired (fix: 47ebe18).',
+         'SQL text is opaque to the verifier; the output / trigger / message selectors (task_outputs table, '
+         '_selector_in_outputs) are not covered.')
+_bounded('C42', 'c42_bounded',
+         'For 5 fixed and 36 (quick) seeded batches of <= 3 short / failing / slow / hanging / jobs-submit commands, '
+         'each with the stop request before the first command, in the middle and after the last, with pool size 1 '
+         '(drained by process()) and size 2 (ended by terminate()), using real child processes: every command gets '
+         'exactly one callback (at most one for a child that terminate() had to kill), never more than `size` '
+         'children run at once, and no jobs-submit command is started once the pool is stopping. The '
+         'dropped-callback defect this work found was repaired (fix: b73e6fd).',
+         'Heterogeneous list entries and process polling are outside the modelled subset. Seeded sampling of the '
+         'batches (VERIF_SEED); timing-dependent: generous 4 s deadline per scenario.')
+_bounded('C48', 'c48_bounded',
+         'For every sequence of <= 4 operations (quick; 5 thorough) from numbered install, install --run-name, clean '
+         'the latest numbered run, clean the oldest, on the real install_workflow / clean in a scratch HOME: a '
+         'successful install never returns an existing directory, runN points to the most recently installed '
+         'numbered run that still exists (and exists after every numbered install), and no number is handed out '
+         'twice - one known finding: the number of a cleaned highest run is reused.',
+         'File-system code (glob, readlink, rsync subprocess). Reinstall is not exercised.')
 
 NOT_APPLICABLE = {
     'C01': 'equality between the set of instances submitted over a whole run and the spawn-on-demand closure, for '
